@@ -1,9 +1,9 @@
 package props
 
 import (
-	"runtime"
 	"encoding/json"
 	"fmt"
+	"runtime"
 	"strings"
 
 	"verif/harness/mc"
